@@ -227,18 +227,61 @@ func runC07(c *Ctx, r *Report) {
 				}
 			}
 		}
-		// comparison: mesg.Field(i).Interface() == allInvalid.Field(i).Interface()
-		for _, b := range fn.Blocks {
-			for _, ins := range b.Instrs {
-				bo, ok := ins.(*ssa.BinOp)
-				if !ok || (bo.Op != token.EQL && bo.Op != token.NEQ) {
-					continue
+		// comparison: mesg.Field(i).Interface() == allInvalid.Field(i).Interface() — in getEncodeMesgDef
+		// itself or in a helper it calls with these values (the helper's parameters are read as the
+		// arguments of the call)
+		type cmpScope struct {
+			g    *ssa.Function
+			site *ssa.Call
+		}
+		scopes := []cmpScope{{fn, nil}}
+		for _, ci := range allCalls(fn) {
+			if g := ci.Common().StaticCallee(); g != nil && fnPkgPath(g) == modPath && len(g.Blocks) > 0 && g != fn {
+				if call, isCall := ci.(*ssa.Call); isCall {
+					scopes = append(scopes, cmpScope{g, call})
 				}
-				px, py := pathOf(bo.X), pathOf(bo.Y)
-				if strings.Contains(px, ".Interface") && strings.Contains(py, ".Interface") && allV != nil {
-					fx := fieldIndexArg(bo.X)
-					fy := fieldIndexArg(bo.Y)
-					if fx != nil && fy != nil && fx == fy && strings.Contains(py, "getMesgAllInvalid") {
+			}
+		}
+		for _, sc := range scopes {
+			subst := func(v ssa.Value) ssa.Value {
+				if p, isP := v.(*ssa.Parameter); isP && sc.site != nil {
+					if k := ssaParamIndex(sc.g, p); k >= 0 && k < len(sc.site.Common().Args) {
+						return sc.site.Common().Args[k]
+					}
+				}
+				return v
+			}
+			// v = X.Interface() with X = base.Field(idx) (after substitution): base, idx
+			fieldOf := func(v ssa.Value) (ssa.Value, ssa.Value) {
+				call, ok := v.(*ssa.Call)
+				if !ok || call.Common().StaticCallee() == nil || call.Common().StaticCallee().String() != "(reflect.Value).Interface" {
+					return nil, nil
+				}
+				inner, ok := subst(call.Common().Args[0]).(*ssa.Call)
+				if !ok || inner.Common().StaticCallee() == nil || inner.Common().StaticCallee().String() != "(reflect.Value).Field" {
+					return nil, nil
+				}
+				// the Field call may itself sit in the helper (allInvalid.Field(sindex)) or at the call site (mesg.Field(i))
+				base, idx := inner.Common().Args[0], inner.Common().Args[1]
+				if inner.Parent() == sc.g {
+					base, idx = subst(base), subst(idx)
+				}
+				return base, idx
+			}
+			for _, b := range sc.g.Blocks {
+				for _, ins := range b.Instrs {
+					bo, ok := ins.(*ssa.BinOp)
+					if !ok || (bo.Op != token.EQL && bo.Op != token.NEQ) || allV == nil {
+						continue
+					}
+					bx, ix := fieldOf(bo.X)
+					by, iy := fieldOf(bo.Y)
+					if bx == nil || by == nil || ix != iy {
+						continue
+					}
+					_, xIsMesg := bx.(*ssa.Parameter)
+					_, yIsMesg := by.(*ssa.Parameter)
+					if (xIsMesg && by == allV) || (yIsMesg && bx == allV) {
 						okCmp = true
 					}
 				}
@@ -326,7 +369,51 @@ func omissionCondOK(v ssa.Value, fn *ssa.Function, seen map[ssa.Value]bool, dept
 		if f.Name() == "getMesgAllInvalid" && fnPkgPath(f) == modPath {
 			return true
 		}
+		// a module helper given only such values, every result of which is computed from its parameters
+		// in the same way (`isInvalidFieldValue(fval, field, allInvalid, i)`)
+		if fnPkgPath(f) == modPath && len(f.Blocks) > 0 && depth < 6 {
+			for _, a := range x.Common().Args {
+				if !omissionArgOK(a, fn, seen, depth+1) {
+					return false
+				}
+			}
+			hseen := map[ssa.Value]bool{}
+			for _, p := range f.Params {
+				hseen[p] = true // parameters stand for the arguments just examined
+			}
+			for _, hb := range f.Blocks {
+				if ret, isRet := hb.Instrs[len(hb.Instrs)-1].(*ssa.Return); isRet {
+					for _, res := range ret.Results {
+						if !omissionCondOK(res, f, hseen, depth+1) {
+							return false
+						}
+					}
+				}
+				// and what decides which return is taken
+				if ifi, isIf := hb.Instrs[len(hb.Instrs)-1].(*ssa.If); isIf {
+					if !omissionCondOK(ifi.Cond, f, hseen, depth+1) {
+						return false
+					}
+				}
+			}
+			return true
+		}
 		return false
+	}
+	return false
+}
+
+// omissionArgOK: an argument handed to an omission helper: a value omissionCondOK accepts, or the
+// profile row of the field at hand (a *field obtained for the same index), whose type the helper may
+// consult for the invalid value.
+func omissionArgOK(v ssa.Value, fn *ssa.Function, seen map[ssa.Value]bool, depth int) bool {
+	if omissionCondOK(v, fn, seen, depth) {
+		return true
+	}
+	if pt, ok := v.Type().Underlying().(*types.Pointer); ok {
+		if n, ok := pt.Elem().(*types.Named); ok && n.Obj().Name() == "field" {
+			return true
+		}
 	}
 	return false
 }
